@@ -43,7 +43,7 @@ from vgi_rpc.http.server import _state_token as st
 PROPERTY = "C12"
 LEVEL = "fault_enumeration"
 QUICK_RUNS = 192
-THOROUGH_RUNS = 9000
+THOROUGH_RUNS = 6000
 QUICK_BUDGET_S = 100
 THOROUGH_BUDGET_S = 1500
 RULE = ("one run = one cluster configuration (workers 1-2, key length, ttl, per-worker cache on/off, prefix) x 2-4 streams (method, identity, "
@@ -119,7 +119,7 @@ class Adversary:
         self.cluster = cluster
         self.caches = caches
         self.sched = sched
-        self.ref: dict[tuple[str, int], tuple[str, bytes]] = {}  # (position, worker) -> (kind, body)
+        self.ref: dict[tuple[str, int], tuple[str, bytes, tuple]] = {}  # (position, worker) -> (kind, body)
         self.n = 0
         self.stop = False
         self.parsed_ok: set[bytes] = set()
@@ -169,8 +169,13 @@ class Adversary:
             if cls is not None:
                 k = (cls, worker)
                 prev = self.ref.get(k)
+                hdrs = tuple(sorted((a, b) for a, b in res.headers.items() if a != "x-request-id"))
                 if prev is None:
-                    self.ref[k] = (kind, res.content)
+                    self.ref[k] = (kind, res.content, hdrs)
+                elif prev[2] != hdrs:
+                    ctx.violation("C12", "distinguishable", f"{cls}:headers:{_base(prev[0])}!={_base(kind)}",
+                                  f"secret-dependent rejections differ in their headers on w{worker}: {prev[0]} -> {prev[2]} but {kind} -> {hdrs}")
+                    self.stop = True
                 elif prev[1] != res.content:
                     a = T.parse_response(res).errors
                     ctx.violation("C12", "distinguishable", f"{cls}:{_base(prev[0])}!={_base(kind)}",
@@ -184,6 +189,8 @@ class Adversary:
         p = T.parse_response(res)
         if p.errors:
             return status
+        if expect == "either" and "same-bytes" not in site:
+            self.ch.probe("call-token-not-consulted-on-warm-worker")
         # whatever was served must be this stream's own state / call state for this identity
         for e in evs:
             if e[1] == "bind" and e[4] is not None and (e[4][1] != T.label_of(s.identity) or e[4][2] != s.tag):
